@@ -1,10 +1,9 @@
 #!/bin/bash
 # try_patch.sh <patch> <id> [runs]  — apply a seeded change to /repo, run the quick check of <id>, undo.
 p=$1; id=$2; runs=${3:-}
-git -C /repo diff --quiet || { echo "/repo is dirty"; exit 2; }
-git -C /repo apply "$p" || { echo "patch does not apply"; exit 2; }
+git -C /repo diff --quiet && git -C /repo diff --cached --quiet || { echo "/repo is dirty"; exit 2; }
+git -C /repo apply "$p" 2>/dev/null || git -C /repo apply --3way "$p" || { echo "patch does not apply"; git -C /repo reset -q --hard; exit 2; }
 if [ -n "$runs" ]; then export VERIF_RUNS=$runs; fi
 /verif/check $id quick 2>&1 | grep -v "^goroutine\|^$\|^\s\s\s\s" | cut -c1-400 | head -${LINES_OUT:-14}
-echo "exit=${PIPESTATUS[0]}"
-git -C /repo checkout -- .
+git -C /repo reset -q --hard
 git -C /repo status --short | head -3
